@@ -85,12 +85,17 @@ structure Zc where
   raised : Bool := false      -- the last operation raised RuntimeError ("different instance")
 deriving Repr
 
+/-- how the mDNS request of a lookup ends: answered, failed, or abandoned while it is in flight (the task running the
+lookup is cancelled, or an enclosing timeout fires - the same thing for the coroutine) -/
+inductive LEnd | ok | fail | cancelled
+deriving DecidableEq, Repr
+
 inductive ZOp
   | setInstance (id : Nat)
   | get
   | getFail                   -- `get_async_zeroconf()` when the library cannot create an instance (`AsyncZeroconf()` raises OSError)
   | close
-  | lookup (ok : Bool)        -- `_async_zeroconf_get_service_info`, the request succeeding or failing
+  | lookup (e : LEnd)         -- `_async_zeroconf_get_service_info`, the request succeeding, failing or being abandoned
 deriving Repr
 
 def Inst.id : Inst → Nat | .supplied i => i | .own i => i
